@@ -20,8 +20,12 @@ Proof.
 Qed.
 
 Lemma simp_step p0 p1 p2 rest :
-  simp (p0 :: p1 :: p2 :: rest) = triple p0 p1 p2 + corr_of p1 p2 rest + simp (p2 :: rest).
-Proof. reflexivity. Qed.
+  simp (p0 :: p1 :: p2 :: rest) == triple p0 p1 p2 + corr_of p1 p2 rest + simp (p2 :: rest).
+Proof.
+  change (simp (p0 :: p1 :: p2 :: rest))
+    with (Qred (Qred (triple p0 p1 p2) + Qred (corr_of p1 p2 rest) + simp (p2 :: rest))).
+  rewrite !Qred_correct. reflexivity.
+Qed.
 
 (* ---------- the segment formulas through "core" functions ---------- *)
 
@@ -296,7 +300,7 @@ Definition mass (l : list pt) : Q := integ (fun _ p => p) l.
 Lemma pinned_mean_affine a b l : ~ a == 0 ->
   m_mu (moments_pinned (transform a b l)) == a * m_mu (moments_pinned l) + b * mass l.
 Proof.
-  intros Ha. unfold moments_pinned, m_mu, mass. simpl.
+  intros Ha. unfold moments_pinned, m_mu, mass. simpl. rewrite !Qred_correct.
   rewrite integ_transform by exact Ha.
   rewrite (integ_ext (fun x p => p / a * (a * x + b))
                      (fun x p => 1 * (p * x) + (b / a) * p)) by (intros; field; exact Ha).
@@ -325,7 +329,7 @@ Proof.
   assert (Hmu : m_mu m' == a * m_mu m + b).
   { unfold m, m'. rewrite pinned_mean_affine by exact Ha. rewrite Hmass. ring. }
   split; [exact Hmu|].
-  unfold m, m', moments_pinned, m_var, m_3, m_4. simpl.
+  unfold m, m', moments_pinned, m_mu, m_var, m_3, m_4 in *. simpl in *.
   repeat split; apply central_transform; try exact Ha; exact Hmu.
 Qed.
 
@@ -344,8 +348,9 @@ Proof. unfold integ. rewrite map_map. reflexivity. Qed.
 Lemma mass_normalise l : ~ mass l == 0 -> mass (normalise l) == 1.
 Proof.
   intros HZ. unfold normalise. fold (mass l). unfold mass at 1.
-  rewrite (integ_map_y (fun _ p => p) (fun p => p / mass l) l).
-  rewrite (integ_ext (fun _ p => p / mass l) (fun x p => (1 / mass l) * p)) by (intros; field; exact HZ).
+  rewrite (integ_map_y (fun _ p => p) (fun p => Qred (p / mass l)) l).
+  rewrite (integ_ext (fun _ p => Qred (p / mass l)) (fun x p => (1 / mass l) * p))
+    by (intros; rewrite Qred_correct; field; exact HZ).
   rewrite integ_scale. fold (mass l). field. exact HZ.
 Qed.
 
@@ -367,7 +372,7 @@ Lemma moments_pinned_map_ext {A} (f f' : A -> pt) l :
 Proof.
   intros Hf m m'.
   assert (Hmu : m_mu m == m_mu m').
-  { unfold m, m', moments_pinned, m_mu. simpl. apply integ_map_ext; [exact Hf|].
+  { unfold m, m', moments_pinned, m_mu. simpl. rewrite !Qred_correct. apply integ_map_ext; [exact Hf|].
     intros x x' p p' Ex Ep. rewrite Ex, Ep. reflexivity. }
   split; [exact Hmu|].
   unfold m, m', moments_pinned, m_var, m_3, m_4 in *. simpl in *. unfold m_mu in Hmu. simpl in Hmu.
@@ -389,8 +394,8 @@ Proof.
               let m2 := moments_pinned (transform a b (normalise l)) in
               m_mu m1 == m_mu m2 /\ m_var m1 == m_var m2 /\ m_3 m1 == m_3 m2 /\ m_4 m1 == m_4 m2).
   { unfold normalise. fold (mass (transform a b l)). fold (mass l). unfold transform. rewrite !map_map.
-    apply moments_pinned_map_ext. intros e _. split; simpl; [reflexivity|].
-    fold (transform a b l). rewrite (mass_transform a b l Ha). unfold Qdiv. ring. }
+    apply moments_pinned_map_ext. intros e _. split; cbn [fst snd]; [reflexivity|].
+    fold (transform a b l). rewrite !Qred_correct. rewrite (mass_transform a b l Ha). unfold Qdiv. ring. }
   cbv zeta in E. destruct E as [E1 [E2 [E3 E4]]].
   destruct (moments_pinned_transform a b (normalise l) Ha (mass_normalise l HZ)) as [T1 [T2 [T3 T4]]].
   rewrite E1, E2, E3, E4. repeat split; assumption.
